@@ -96,6 +96,24 @@ pub fn run(a: &Args) {
         let f = |v: &GameVersion| format!("{} {} {}", v.major.to_bits(), v.minor as u32, v.patch.map(|p| p.to_string()).unwrap_or("none".into()));
         if st.evaluations % 16 == 0 && x.patch.unwrap_or(0) < (1 << 40) && y.patch.unwrap_or(0) < (1 << 40) { out.case(&format!("vcmp {} {}", f(x), f(y)), &format!("{} {}", ord(xy), if x == y { "eq" } else { "ne" })); }
     }
+    // 3b. equality is an equivalence consistent with the order, also between NEIGHBOURS: every parsed version against itself and
+    //     against the versions whose number is the next / previous float (one unit in the last place apart), same letter and revision
+    for v in parsed.iter().take(6000) {
+        st.evaluations += 1;
+        let id = format!("{} | {} | {}", v, v, v);
+        #[allow(clippy::eq_op)]
+        if !(v == v) { st.fail(format!("[C16] {} is not equal to itself", v), id.clone()); }
+        if v.major.is_finite() {
+            for nb in [f32::from_bits(v.major.to_bits() + 1), if v.major.to_bits() > 0 { f32::from_bits(v.major.to_bits() - 1) } else { v.major }] {
+                if nb.to_bits() == v.major.to_bits() || !nb.is_finite() { continue; }
+                let w = GameVersion { major: nb, minor: v.minor, patch: v.patch };
+                let c = v.cmp(&w);
+                let want = v.major.partial_cmp(&nb).unwrap();
+                if c != want { st.fail(format!("[C16] cmp of versions one float step apart ({:?} vs {:?}) is {:?}", v.major, nb, c), id.clone()); }
+                if *v == w { st.fail(format!("[C16] versions whose numbers are the distinct floats {:?} and {:?} compare == although cmp is {:?}", v.major, nb, c), format!("{} | {} | {}", v, w, v)); }
+            }
+        }
+    }
     // 4. the oracle hypotheses of the model, on std itself
     for c in 0u32..128 { let ch = char::from_u32(c).unwrap(); if ch.is_numeric() != ch.is_ascii_digit() { st.fail(format!("[C16 oracle] is_numeric({:?})", ch), format!("char {c}")); } }
     let check_bits = |x: u32, st: &mut Stats| {
